@@ -317,7 +317,7 @@ def selfcheck():
 
 def phases(tier):
     quick = tier == 'quick'
-    extra = [] if quick else [Phase('fortran-engine', check_fortran, strategy=strat_fortran, examples=300)]
+    extra = [] if quick else [Phase('fortran-engine', check_fortran, strategy=strat_fortran, examples=300, native=True)]
     return extra + [
         Phase('positions-enumerated', check_solve_t, gen=gen_enumerated(3 if quick else 4), exhaustive=True),
         Phase('positions', check_solve_t, strategy=strategy(), examples=1200 if quick else 12000),
